@@ -33,8 +33,8 @@ REQUIRED_FUNCS = ["sempler/semi.py:DRFNet.__init__", "sempler/semi.py:DRFNet.sam
 REQUIRED_COUNTERS = {"quick": {"sample-calls": 600, "queries-checked": 1000, "fits-checked": 500, "independence-asserted": 100,
                                "repro:seeded-pairs": 200, "repro:seed0": 20, "errors:raised-as-documented": 400, "n:list": 50, "n:int": 50, "n:None": 50},
                      "thorough": {"sample-calls": 6000, "queries-checked": 10000, "fits-checked": 5000, "independence-asserted": 1000,
-                                  "repro:seeded-pairs": 2000, "repro:seed0": 200, "errors:raised-as-documented": 4000, "n:list": 500, "n:int": 500, "n:None": 500}}
-N = {"quick": 320, "thorough": 3200}
+                                  "repro:seeded-pairs": 2000, "repro:seed0": 200, "errors:raised-as-documented": 400, "n:list": 500, "n:int": 500, "n:None": 500}}
+N = {"quick": 320, "thorough": 6400}
 
 
 def gen(tier, seed, shard, nshards):
